@@ -367,152 +367,135 @@ def _locals(fn: ast.FunctionDef) -> set[str]:
     return out - {a.arg for a in fn.args.args + fn.args.kwonlyargs}
 
 
-def alpha_rename(snapshot: ast.FunctionDef, current: ast.FunctionDef):
-    """If `current` is `snapshot` up to a one-to-one renaming of names bound inside the function (assigned names, loop
-    and comprehension variables, nested function names and their parameters — not the function's own parameters, not
-    attributes, not free names), returns (copy of current with the snapshot's names, {current name: snapshot name});
-    otherwise None.  Alpha-renaming preserves meaning: the verified text is still the current code."""
-    sl, cl = _locals(snapshot), _locals(current)
-    env, rev = {}, {}
-    comp_ren: dict[int, dict] = {}
-    node_ids = {}
+_COMPS = (ast.ListComp, ast.SetComp, ast.GeneratorExp, ast.DictComp)
+_FUNCS = (ast.FunctionDef, ast.AsyncFunctionDef, ast.Lambda)
 
-    def uni(p, n) -> bool:
+
+def _scope_bound(node, outermost=False) -> set[str]:
+    """names bound in the scope opened by `node` itself (not in scopes nested inside it)"""
+    out = set()
+    if isinstance(node, _COMPS):
+        for g in node.generators:
+            out |= {x.id for x in ast.walk(g.target) if isinstance(x, ast.Name)}
+        return out
+    a = node.args
+    params = {x.arg for x in a.args + a.kwonlyargs + a.posonlyargs} | ({a.vararg.arg} if a.vararg else set()) | ({a.kwarg.arg} if a.kwarg else set())
+    declared = set()
+    body = node.body if isinstance(node.body, list) else [node.body]
+    stack = list(body)
+    while stack:
+        n = stack.pop()
+        if isinstance(n, (ast.FunctionDef, ast.AsyncFunctionDef)):
+            out.add(n.name)
+            continue
+        if isinstance(n, (ast.Lambda,) + _COMPS + (ast.ClassDef,)):
+            continue
+        if isinstance(n, (ast.Global, ast.Nonlocal)):
+            declared |= set(n.names)
+        if isinstance(n, ast.Name) and isinstance(n.ctx, (ast.Store, ast.Del)):
+            out.add(n.id)
+        if isinstance(n, ast.ExceptHandler) and n.name:
+            out.add(n.name)
+        if isinstance(n, (ast.Import, ast.ImportFrom)):
+            declared |= {(al.asname or al.name).split(".")[0] for al in n.names}
+        stack += list(ast.iter_child_nodes(n))
+    out -= declared
+    # the parameters of the function under contract keep their names (callers may pass them by keyword)
+    return (out - params) if outermost else (out | params)
+
+
+def alpha_rename(snapshot: ast.FunctionDef, current: ast.FunctionDef):
+    """If `current` is `snapshot` up to a renaming of locally bound names that is one-to-one within each scope (the
+    function body, every nested function or lambda, every comprehension; not the function's own parameters, not
+    attributes, not free names), returns (copy of current carrying the snapshot's names, {current name: snapshot name});
+    otherwise None.  Alpha-renaming preserves meaning: the verified text is still the current code."""
+    current = copy.deepcopy(current)
+    todo = []   # (node, attribute, new value) applied when the whole function unifies
+    ren_all = {}
+
+    def lookup(frames, pid):
+        for fr in reversed(frames):
+            if pid in fr["sl"]:
+                return fr
+        return None
+
+    def bind(frames, pid, nid, node, attr):
+        fr = lookup(frames, pid)
+        if fr is None:
+            return pid == nid            # free name, global, builtin, parameter of the function under contract
+        if nid not in fr["cl"]:
+            return False
+        if pid in fr["env"]:
+            ok = fr["env"][pid] == nid
+        elif nid in fr["rev"]:
+            ok = False
+        else:
+            fr["env"][pid], fr["rev"][nid] = nid, pid
+            ok = True
+        if ok and pid != nid:
+            todo.append((node, attr, pid))
+            ren_all[nid] = pid
+        return ok
+
+    def uni(p, n, frames) -> bool:
         if isinstance(p, ast.Name) and isinstance(n, ast.Name):
-            if p.id not in sl:
-                return p.id == n.id
-            if n.id not in cl:
-                return False
-            if p.id in env:
-                return env[p.id] == n.id
-            if n.id in rev:
-                return False
-            env[p.id], rev[n.id] = n.id, p.id
-            return True
+            # a name of the current code that is local there must correspond to a local of the snapshot
+            if lookup(frames, p.id) is None:
+                return p.id == n.id and not any(n.id in fr["cl"] and n.id not in fr["sl"] for fr in frames)
+            return bind(frames, p.id, n.id, n, "id")
         if type(p) is not type(n):
             return False
-        if isinstance(p, (ast.ListComp, ast.SetComp, ast.GeneratorExp, ast.DictComp)):
-            # a comprehension has its own scope: its variables are unified on their own and renamed on their own
-            pt = {x.id for g in p.generators for x in ast.walk(g.target) if isinstance(x, ast.Name)}
-            nt = {x.id for g in n.generators for x in ast.walk(g.target) if isinstance(x, ast.Name)}
-            saved_env = {k: env.pop(k) for k in list(env) if k in pt}
-            saved_rev = {k: rev.pop(k) for k in list(rev) if k in nt or rev[k] in pt}
-            sl.update(pt)
-            cl.update(nt)
-            ok = all(uni(getattr(p, f), getattr(n, f)) for f in p._fields if isinstance(getattr(p, f), ast.AST)) and \
-                len(p.generators) == len(n.generators) and all(uni(a, b) for a, b in zip(p.generators, n.generators))
-            comp_ren[id(n)] = {env[k]: k for k in pt if k in env and env[k] != k}
-            for k in pt:
-                v = env.pop(k, None)
-                if v is not None:
-                    rev.pop(v, None)
-            env.update(saved_env)
-            rev.update(saved_rev)
-            return ok
         if isinstance(p, ast.arg):
-            return uni(ast.Name(id=p.arg), ast.Name(id=n.arg)) if p.arg in sl else p.arg == n.arg
-        if isinstance(p, (ast.FunctionDef, ast.AsyncFunctionDef)) and p is not snapshot:
-            if not uni(ast.Name(id=p.name), ast.Name(id=n.name)):
+            return bind(frames, p.arg, n.arg, n, "arg") if lookup(frames, p.arg) is not None else p.arg == n.arg
+        if isinstance(p, (ast.FunctionDef, ast.AsyncFunctionDef)) and frames and p is not snapshot:
+            if not bind(frames, p.name, n.name, n, "name"):
                 return False
         if isinstance(p, ast.ExceptHandler) and (p.name or n.name):
-            if not (p.name and n.name and uni(ast.Name(id=p.name), ast.Name(id=n.name))):
+            if not (p.name and n.name and bind(frames, p.name, n.name, n, "name")):
                 return False
+        inner = frames
+        if isinstance(p, _FUNCS + _COMPS) and not (p is snapshot):
+            inner = frames + [{"sl": _scope_bound(p), "cl": _scope_bound(n), "env": {}, "rev": {}}]
         for f in p._fields:
-            if f in ("ctx", "type_comment", "kind", "type_ignores") or (f == "name" and isinstance(p, (ast.FunctionDef, ast.ExceptHandler))):
+            if f in ("ctx", "type_comment", "kind", "type_ignores") or (f == "name" and isinstance(p, (ast.FunctionDef, ast.AsyncFunctionDef, ast.ExceptHandler))):
                 continue
             a, b = getattr(p, f, None), getattr(n, f, None)
+            # decorators and default values belong to the enclosing scope
+            scope = frames if f in ("decorator_list", "returns") else inner
+            if isinstance(p, _COMPS) and f == "generators" and a and b and len(a) == len(b):
+                # the first iterable of a comprehension is evaluated in the enclosing scope
+                if not uni(a[0].iter, b[0].iter, frames):
+                    return False
+                for k, (x, y) in enumerate(zip(a, b)):
+                    if not uni(x.target, y.target, inner) or (k > 0 and not uni(x.iter, y.iter, inner)):
+                        return False
+                    if len(x.ifs) != len(y.ifs) or not all(uni(u, v, inner) for u, v in zip(x.ifs, y.ifs)) or x.is_async != y.is_async:
+                        return False
+                continue
             if isinstance(a, list):
                 if not isinstance(b, list) or len(a) != len(b):
                     return False
                 for x, y in zip(a, b):
                     if isinstance(x, ast.AST):
-                        if not uni(x, y):
+                        if not uni(x, y, scope):
                             return False
                     elif x != y:
                         return False
             elif isinstance(a, ast.AST):
-                if not isinstance(b, ast.AST) or not uni(a, b):
+                if not isinstance(b, ast.AST) or not uni(a, b, scope):
                     return False
             elif a != b:
                 return False
         return True
 
-    if not uni(snapshot, current):
+    top = {"sl": _scope_bound(snapshot, True), "cl": _scope_bound(current, True), "env": {}, "rev": {}}
+    if not uni(snapshot, current, [top]):
         return None
-    ren = {cur: snap for snap, cur in env.items() if cur != snap}
-    if not ren and not any(comp_ren.values()):
+    if not todo:
         return None
-    # comprehension-local renamings are applied to the original nodes first (deepcopy keeps them)
-    class RC(ast.NodeTransformer):
-        def __init__(self, m):
-            self.m = m
-
-        def visit_Name(self, n):
-            if n.id in self.m:
-                n.id = self.m[n.id]
-            return n
-    current = copy.deepcopy(current)
-    # ids change with the copy: recompute the comprehension maps by position
-    if any(comp_ren.values()):
-        return _alpha_with_comps(snapshot, current)
-    out = copy.deepcopy(current)
-
-    class R(ast.NodeTransformer):
-        def visit_Name(self, n):
-            if n.id in ren:
-                n.id = ren[n.id]
-            return n
-
-        def visit_arg(self, n):
-            if n.arg in ren:
-                n.arg = ren[n.arg]
-            return n
-
-        def visit_FunctionDef(self, n):
-            if n is not out and n.name in ren:
-                n.name = ren[n.name]
-            self.generic_visit(n)
-            return n
-
-        def visit_ExceptHandler(self, n):
-            if n.name in ren:
-                n.name = ren[n.name]
-            self.generic_visit(n)
-            return n
-    R().visit(out)
-    return out, ren
-
-
-def _alpha_with_comps(snapshot, current):
-    """second pass on a private copy: comprehension variables are first renamed to the snapshot's (each comprehension on
-    its own), then the function-level renaming is computed on the result"""
-    snap_comps = [n for n in ast.walk(snapshot) if isinstance(n, (ast.ListComp, ast.SetComp, ast.GeneratorExp, ast.DictComp))]
-    cur_comps = [n for n in ast.walk(current) if isinstance(n, (ast.ListComp, ast.SetComp, ast.GeneratorExp, ast.DictComp))]
-    if len(snap_comps) != len(cur_comps):
-        return None
-    total = {}
-    for p, n in zip(snap_comps, cur_comps):
-        pt = [x.id for g in p.generators for x in ast.walk(g.target) if isinstance(x, ast.Name)]
-        nt = [x.id for g in n.generators for x in ast.walk(g.target) if isinstance(x, ast.Name)]
-        if len(pt) != len(nt):
-            return None
-        m = {b: a for a, b in zip(pt, nt) if a != b}
-        if m:
-            for x in ast.walk(n):
-                if isinstance(x, ast.Name) and x.id in m:
-                    x.id = m[x.id]
-            total.update(m)
-    res = alpha_rename(snapshot, current)
-    if res is None:
-        # only comprehension variables differed
-        return (current, total) if ast.dump(snapshot) == ast.dump(current) or _same_modulo_positions(snapshot, current) else None
-    out, ren = res
-    ren = dict(total, **ren)
-    return out, ren
-
-
-def _same_modulo_positions(a, b) -> bool:
-    return ast.dump(a, include_attributes=False) == ast.dump(b, include_attributes=False)
+    for node, attr, val in todo:
+        setattr(node, attr, val)
+    return current, ren_all
 
 
 # ---------------------------------------------------------------------------------------------------------------------
